@@ -155,5 +155,5 @@ func mkRReq(h uint32, v byte, from int, ts uint64) *Payload {
 // blockRecOf is the block a node holding `prev` as tip builds from proposal p.
 func blockRecOf(p *Payload, prev H) BlockRec {
 	b := p.Body.(*ReqBody)
-	return BlockRec{H: p.Ht, Prev: string(prev), Ts: b.Ts, Nonce: itoa(b.NonceV), Txs: hs(b.Txs)}
+	return BlockRec{H: p.Ht, Prev: short(prev), Ts: b.Ts, Nonce: itoa(b.NonceV), Txs: hs(b.Txs)}
 }
